@@ -239,7 +239,7 @@ def run_property(pid, cfg, tier='quick', seed=0, replayer=None):
             # the unbounded proof could not be run (time-out, a new loop without contract, ...): still look for a real
             # violating execution with loops unwound and small buffers; finding none leaves the property undecided (exit 2)
             if r.backend == 'cbmc' and r.info.get('path') and sp is not None and 'extraction break' not in r.undecided:
-                btop, bdesc = bounded_confirmation(r, sp, timeout=240)
+                btop, bdesc = bounded_confirmation(r, sp, timeout=420)
                 if btop:
                     r.obligations = btop
                     table[r.key].update({'status': 'failed', 'failed': ['%s | %s' % (o['name'], o['desc']) for o in btop], 'obligations': len(btop), 'discharged': 0})
